@@ -237,6 +237,8 @@ def status_assigned(ctx, rule='status-assigned-on-every-path'):
 
 
 def run(ctx):
+    from . import hygiene
+    hygiene.noalias_destination_not_in_product(ctx, scope=lambda fn: fn.cls in ('Spectra::SearchSpace', 'Spectra::RitzPairs', 'Spectra::JDSymEigsBase', 'Spectra::DavidsonSymEigsSolver'), min_instances=1)
     success_order(ctx)
     ritz_pairs_rules(ctx)
     correction_guard(ctx)
